@@ -94,22 +94,22 @@ Definition qdelta (i j : nat) : QI := delta (R:=QI) i j.
 Definition untouched_fixed (n : nat) (W : mat QI) (untouched : list nat) : bool :=
   forallb (fun u => forallb (fun i => qi_eqb (W i u) (qdelta i u) && qi_eqb (W u i) (qdelta u i)) (seq 0 n)) untouched.
 
-Definition seg_report (nL n : nat) (W : mat QI) (user_keys : list nat) (mn : nat) (pv : list nat) (q : option ps) : sx :=
+Definition seg_report (cf : cfg) (nL n : nat) (W : mat QI) (user_keys : list nat) (mn : nat) (pv : list nat) (q : option ps) : sx :=
   let unt := filter (fun x => negb (mem x user_keys)) (seq 0 nL) in
   L [of_nat_sx mn; of_nats pv; of_nats user_keys; of_nats unt; of_bool (untouched_fixed n (xtb n W) unt);
-     match q with None => L [] | Some p => L [of_ps (ps_code mn pv p); of_ps (ps_right mn pv p)] end].
+     match q with None => L [] | Some p => L [of_ps (ps_code (c_ps_shift_first cf) mn pv p); of_ps (ps_right mn pv p)] end].
 
 (* one statement: (env', accepted, segment report) *)
-Definition cstep (env : cenv) (s : cstmt) : cenv * bool * sx :=
+Definition cstep (cf : cfg) (env : cenv) (s : cstmt) : cenv * bool * sx :=
   match s with
   | CNew v m => if 0 <? m then (cset env v (new_exp m), true, L []) else (env, false, L [])
   | CAddComp v mp k U keep =>
       match cget env v with
       | Some e =>
-          match add_comp xtb e mp k U keep with
+          match add_comp xtb cf e mp k U keep with
           | (e', ok, Some (mn, pv, m)) =>
               (cset env v e', ok,
-               seg_report (csize e) (csize e') (comp_step (csize e') mn pv k U) (keys m) mn pv None)
+               seg_report cf (csize e) (csize e') (comp_seg (c_comp_inverse cf) (csize e') mn pv k U) (keys m) mn pv None)
           | (e', ok, None) => (cset env v e', ok, L [])
           end
       | None => (env, false, L [])
@@ -117,10 +117,10 @@ Definition cstep (env : cenv) (s : cstmt) : cenv * bool * sx :=
   | CAddProc v mp w keep =>
       match cget env v, cget env w with
       | Some e, Some r =>
-          match add_proc xtb e mp r keep with
+          match add_proc xtb cf e mp r keep with
           | (e', ok, Some (mn, pv, m)) =>
               (cset env v e', ok,
-               seg_report (csize e) (csize e') (proc_step (csize e') mn pv (csize r) (e_U r))
+               seg_report cf (csize e) (csize e') (proc_step (csize e') mn pv (csize r) (e_U r))
                           (firstn (e_moi r) (keys m)) mn pv (e_ps r))
           | (e', ok, None) => (cset env v e', ok, L [])
           end
@@ -153,17 +153,20 @@ Definition cstmt_target (s : cstmt) : nat :=
   match s with
   | CNew v _ | CAddComp v _ _ _ _ | CAddProc v _ _ _ | CHerald v _ _ _ | CPort v _ _ _ _ _ | CDet v _ _ | CSetPS v _ => v
   end.
-Fixpoint crun (env : cenv) (p : list cstmt) : list sx :=
+Fixpoint crun (cf : cfg) (env : cenv) (p : list cstmt) : list sx :=
   match p with
   | [] => []
   | s :: r =>
-      match cstep env s with
+      match cstep cf env s with
       | (env', ok, seg) =>
           L [of_bool ok; match cget env' (cstmt_target s) with Some e => L [report e] | None => L [] end; seg]
-          :: crun env' r
+          :: crun cf env' r
       end
   end.
-Definition x_conn_run (x : sx) : sx := L (crun [] (map to_cstmt (to_list x))).
+(* the code as it is now *)
+Definition x_conn_run (x : sx) : sx := L (crun cfg_now [] (map to_cstmt (to_list x))).
+(* the code before the fix commits 7bb2f795, c0ab6b50, 2ff1ae25 *)
+Definition x_conn_run_old (x : sx) : sx := L (crun cfg_old [] (map to_cstmt (to_list x))).
 
 (* args: ps, m, nmax -> value on every state of m modes with 0..nmax photons (FSArray order per photon number) *)
 Definition x_ps_eval_all (x : sx) : sx :=
